@@ -322,7 +322,10 @@ func c17run(c *runner.Ctx) runner.Result {
 						var e string
 						p := ms.Recover(func() { e = c17apply(in, op, atomic.AddInt64(&idc, 1)) })
 						hmu.Lock()
-						if op.kind == "destroy" && e == "" {
+						if op.kind == "destroy" {
+							// whatever it returned: RemoveTimeBucket mutates the tree and the directory before it
+							// fails (e.g. "failed to remove directory" when a concurrent writer has just put a file
+							// there), so a failed Destroy overlaps the other catalog users just as well
 							destroyed = true
 						}
 						s := fmt.Sprintf("g%d:%s", w, op)
